@@ -1,3 +1,7 @@
 import LzmaProofs.Lemmas.Monad
+import LzmaProofs.Lemmas.RangeCoder
+import LzmaProofs.Props.C01
 import LzmaProofs.Props.C01Sym
+import LzmaProofs.Props.C03
+import LzmaProofs.Props.C04
 import LzmaProofs.Props.C13
